@@ -422,6 +422,73 @@ pub fn elected_before_persistence_is_reported() -> Script {
     s
 }
 
+/// One more persistence-notice race: Ready A carries entries 2..4 of term 1; the term-2 leader overwrites the
+/// tail with a shorter suffix (Ready B: entry 2 of term 2) and then sends 3..4 of term 2 (Ready C, commit 4).
+/// The disk completes the writes of A and B together, C is still in flight: one `on_persist_ready(B)` covers
+/// two Readies. Only index 2 may count as persisted, so only entry 2 may be handed out for apply.
+pub fn persist_notice_covers_two_readies_after_truncation() -> Script {
+    use raft::eraftpb::MessageType as T;
+    let mut s = Script::new(cluster(vec![1, 2, 3, 4, 5], 5));
+    s.act(Action::Campaign { n: 1 });
+    s.settle(&[1, 2, 3, 4, 5]);
+    for id in 1..=3 {
+        s.act(Action::Propose { n: 1, id, size: 8 });
+    }
+    s.sync_round(1);
+    s.deliver_where(|k, m| k.f == 1 && k.t == 3 && m.get_msg_type() == T::MsgAppend);
+    s.act(Action::AppReady { n: 3, mode: Mode::Async, skip_fsync: false, force: false }); // Ready A: 2..4 of term 1
+    s.drop_where(|k, _| k.f == 1 || k.t == 1);
+    // node 2 wins term 2 with {2,4,5}, commits 2..4 of term 2
+    s.act(Action::Campaign { n: 2 });
+    s.sync_round(2);
+    s.deliver_where(|k, m| k.f == 2 && (k.t == 4 || k.t == 5) && m.get_msg_type() == T::MsgRequestVote);
+    s.drop_where(|k, _| k.f == 2 && (k.t == 1 || k.t == 3));
+    s.sync_round(4);
+    s.sync_round(5);
+    s.deliver_where(|k, _| k.t == 2);
+    s.sync_round(2);
+    for _ in 0..3 {
+        s.drop_where(|k, _| k.t == 1 || k.t == 3 || k.f == 1 || k.f == 3);
+        s.settle(&[2, 4, 5]);
+    }
+    // node 3 hears the new leader: first the append that truncates (Ready B), the later entries are not there yet
+    s.act(Action::Tick { n: 2 });
+    s.sync_round(2);
+    s.drop_where(|k, _| k.t == 1);
+    s.deliver_where(|k, m| k.f == 2 && k.t == 3 && m.get_msg_type() == T::MsgHeartbeat);
+    s.act(Action::AppReady { n: 3, mode: Mode::Async, skip_fsync: false, force: false });
+    s.act(Action::Fsync { n: 3, count: u32::MAX, defer: true }); // all durable so far, raft not told (messages go out)
+    s.deliver_where(|k, m| k.f == 3 && k.t == 2 && m.get_msg_type() == T::MsgHeartbeatResponse);
+    s.sync_round(2);
+    s.deliver_where(|k, m| k.f == 2 && k.t == 3 && m.get_msg_type() == T::MsgAppend);
+    s.act(Action::AppReady { n: 3, mode: Mode::Async, skip_fsync: false, force: false }); // Ready B: truncation at 2
+    let writes_ab = s.world.nodes[&3].disk.wq.len() as u32;
+    // node 2 appends two more entries and commits them with 4 and 5, then they reach node 3 (Ready C)
+    s.act(Action::Propose { n: 2, id: 21, size: 8 });
+    s.act(Action::Propose { n: 2, id: 22, size: 8 });
+    for _ in 0..3 {
+        s.drop_where(|k, _| k.t == 1 || k.t == 3 || k.f == 1 || k.f == 3);
+        s.settle(&[2, 4, 5]);
+    }
+    s.act(Action::Fsync { n: 3, count: writes_ab, defer: true });
+    s.deliver_where(|k, m| k.f == 3 && k.t == 2);
+    s.sync_round(2);
+    for _ in 0..3 {
+        s.drop_where(|k, _| k.t == 1);
+        s.deliver_where(|k, m| k.f == 2 && k.t == 3 && m.get_msg_type() == T::MsgAppend);
+        s.act(Action::AppReady { n: 3, mode: Mode::Async, skip_fsync: false, force: false }); // Ready C (not fsynced)
+        s.deliver_where(|k, m| k.f == 3 && k.t == 2);
+        s.sync_round(2);
+    }
+    // the notice for A and B arrives as one
+    s.act(Action::Notify { n: 3 });
+    s.act(Action::AppReady { n: 3, mode: Mode::Async, skip_fsync: false, force: false });
+    s.act(Action::Apply { n: 3, count: u32::MAX });
+    s.act(Action::Fsync { n: 3, count: u32::MAX, defer: false });
+    s.settle(&[2, 3, 4, 5]);
+    s
+}
+
 /// C08 open finding: a network duplicate of a forwarded MsgReadIndex is registered a second time at the
 /// (by then superseded) leader; a delayed heartbeat response that acknowledged the first registration
 /// completes the quorum of the second one and releases a later local read without any heartbeat round
@@ -483,6 +550,7 @@ pub fn for_property(id: &str) -> Vec<(&'static str, fn() -> Script)> {
         "C07" | "C14" => vec![
             ("persist_notice_after_truncation", persist_notice_after_truncation),
             ("persist_notice_after_truncating_ready", persist_notice_after_truncating_ready),
+            ("persist_notice_covers_two_readies_after_truncation", persist_notice_covers_two_readies_after_truncation),
         ],
         "C13" => vec![("elected_before_persistence_is_reported", elected_before_persistence_is_reported)],
         "C04" => vec![
